@@ -163,7 +163,7 @@ def run(tier):
     specs = corpus.quick_specs() if tier == "quick" else corpus.thorough_specs()
     cases = corpus.generate(rep, specs)
     if tier == "quick":
-        keep = {"elementwise": 16, "update_at": 12, "get_at": 10, "id": 6, "preserve": 4, "argfind": 4, "reduce": 2}
+        keep = {"elementwise": 16, "update_at": 30, "get_at": 10, "id": 6, "preserve": 4, "argfind": 4, "reduce": 2}
         cases = [c for i, c in enumerate(cases) if i % keep.get(c["fam"], 1) == 0]
     items = [{"case": c, "op": OPS[c["fam"]][i % len(OPS[c["fam"]])], "seed": i} for i, c in enumerate(cases)]
     for rr in common.parallel_map("real_calls_chunk", sys.modules[__name__], items):
